@@ -290,5 +290,6 @@ fn main() {
     }
     let n = cx.id;
     file.flush().unwrap();
+    vharness::evalx::exit_on_build_failures("par");
     eprintln!("par: {n} records");
 }
